@@ -436,6 +436,27 @@ fn faults_for(mode: Mode, tier: Tier, seed: u64, img: &ImageInfo) -> Vec<Fault> 
             };
             out.push(Fault::Multi(vec![a, bb]));
         }
+        // (C04) an altered content pack next to another content pack that is not there at all: the
+        // container check covers the packs that are present, whichever of them is missing
+        if mode == Mode::C04 && img.spans[fi].first().map(|s| s.kind) == Some(b'c') {
+            let span = &img.spans[fi][0];
+            let (lo, hi) = (span.start + 64, span.start + span.checked_end());
+            for fj in 0..img.bytes.len() {
+                if fj == fi || img.spans[fj].first().map(|s| s.kind) != Some(b'c') {
+                    continue;
+                }
+                for _ in 0..24 {
+                    out.push(Fault::Multi(vec![
+                        Fault::Flip {
+                            file: fi,
+                            pos: rng.range(lo, hi - 1),
+                            mask: *rng.pick(&[0x01u8, 0x80, 0xFF]),
+                        },
+                        Fault::Remove { file: fj },
+                    ]));
+                }
+            }
+        }
         if mode == Mode::C06 {
             // truncation at every length (small) or strided + boundaries (large)
             if small {
@@ -494,7 +515,11 @@ fn faults_for(mode: Mode, tier: Tier, seed: u64, img: &ImageInfo) -> Vec<Fault> 
 
 fn write_files(dir: &Path, names: &[String], bytes: &[Vec<u8>]) {
     for (n, b) in names.iter().zip(bytes) {
-        std::fs::write(dir.join(n), b).expect("write case file");
+        if b.as_slice() == simcore::fault::REMOVED {
+            let _ = std::fs::remove_file(dir.join(n));
+        } else {
+            std::fs::write(dir.join(n), b).expect("write case file");
+        }
     }
 }
 
@@ -675,6 +700,10 @@ pub fn child_main(args: &Args) -> ! {
         proc::child::begin(i);
         // one case in three also has jubako's reader-side streams return seeded short reads
         hooks.set_short_reads(if i % 3 == 1 { 250 } else { 0 }, i);
+        // one damaged-file case in four is read in an environment where memory mappings cannot be
+        // obtained (vm.max_map_count reached, address space exhausted): the library may answer
+        // with errors, never with unverified data
+        hooks.set_failing_sites(if mode != Mode::C04 && i % 4 == 2 { vec!["mmap"] } else { vec![] });
         let fault = &faults[i as usize];
         let mut files = pristine_bytes.clone();
         let fired = fault.apply(&mut files);
@@ -737,6 +766,7 @@ pub fn child_main(args: &Args) -> ! {
                 let changed = d != reference;
                 json!({
                     "fired": fired,
+                    "mmap_refused": hooks.take_faults_fired().get("mmap").copied().unwrap_or(0),
                     "diffs": diffs.iter().take(6).collect::<Vec<_>>(),
                     "ndiffs": diffs.len(),
                     "errs": nerr,
@@ -1115,6 +1145,10 @@ pub fn parent_main(args: &Args, mode: Mode) -> ! {
             let fired = rec["payload"]["fired"].as_bool().unwrap_or(true);
             let outcome = rec["outcome"].as_str().unwrap_or("?").to_string();
             *outcome_counts.entry(format!("{profile}:{outcome}")).or_insert(0) += 1;
+            let refused = rec["payload"]["mmap_refused"].as_u64().unwrap_or(0);
+            if refused > 0 {
+                ev.fired("syscall-failure:mmap-refused", refused);
+            }
             if fired {
                 ev.fired(&kind, 1);
                 ev.distinct.insert(simcore::prng::hash_label(
